@@ -513,7 +513,7 @@ pub fn case(cfg: &CaseCfg) -> BoxedStrategy<Case> {
   // extra subscribers join at generated positions; unsub events likewise
   let extras = prop::collection::vec((any::<u16>(), 0u8..=3, any::<u16>()), 0..=4);
   let reacts = prop::collection::vec(
-    (0usize..=3, 0u8..=2, 0usize..8, small(), 0u8..=5),
+    (prop_oneof![4 => 0usize..=3, 1 => Just(AT_TERMINAL)], 0u8..=2, 0usize..8, small(), 0u8..=5),
     0..=(if cfg.reactions { 3 } else { 0 }),
   );
   let advances = prop::collection::vec((any::<u16>(), prop::sample::select(vec![3u64, 7, 12, 30])), 0..=(if cfg.advance { 4 } else { 0 }));
